@@ -41,7 +41,9 @@ FRESH = 'zq_fresh_name'
 
 def plan(tier, seed):
     n, per = SIZES[tier]
-    return [{'id': 'c07-%d' % i, 'per': per, 'format': FORMATS[i % len(FORMATS)],
+    # every third case keeps ONE Script per file for all its inspect-only requests (an IDE offering
+    # several refactorings on the same buffer); each such result must equal the one of a new Script
+    return [{'id': 'c07-%d' % i, 'per': per, 'format': FORMATS[i % len(FORMATS)], 'shared': i % 3 == 1,
              'seed': '%s/C07/%d' % (seed, i)} for i in range(n)]
 
 
@@ -272,17 +274,28 @@ def run(spec):
                  ('extract_variable', 'main.py', (1, 9999), {'new_name': 'zq_new'}, '<out of range>'),
                  ('inline', 'main.py', (0, 0), {}, '<out of range>')]
     checked = 0
+    shared_scripts = {}
+    shared_root = os.path.join(base, 'shared')
     for k, (refac, rel, (line, col), kwargs, what) in enumerate(requests):
-        root = os.path.join(base, 'p%d' % k)
-        c05.write_tree(root, files)
+        use_shared = bool(spec.get('shared')) and k % 2 == 1
+        root = shared_root if use_shared else os.path.join(base, 'p%d' % k)
+        if not (use_shared and os.path.isdir(root)):
+            c05.write_tree(root, files)
         S0 = snapshot(root)
         w = {'case': spec['id'], 'format': fmt, 'refactoring': refac, 'file': rel, 'pos': [line, col],
-             'what': what, 'files': files}
-        project = jedi.Project(root)
+             'what': what, 'files': files, 'script_shared_with_earlier_requests': use_shared}
         path = os.path.join(root, rel)
-        ok, s = apimon.call(rec, 'Script', jedi.Script, files[rel], path=path, project=project, witness=w)
+        if use_shared and rel in shared_scripts:
+            ok, s = True, shared_scripts[rel]
+            rec.ev('c07:requests_on_a_script_used_before')
+        else:
+            project = jedi.Project(root)
+            ok, s = apimon.call(rec, 'Script', jedi.Script, files[rel], path=path, project=project, witness=w)
+            if ok and use_shared:
+                shared_scripts[rel] = s
         if not ok:
-            shutil.rmtree(root, ignore_errors=True)
+            if not use_shared:
+                shutil.rmtree(root, ignore_errors=True)
             continue
         out_of_range = what == '<out of range>'
         # ---- exception contract
@@ -309,13 +322,14 @@ def run(spec):
                         'ValueError for bad positions are allowed)' % (refac, type(e).__name__, str(e)[:200]),
                         trace=apimon._short_tb(e), **w)
         s = None
+        cleanup = (lambda d: None) if use_shared else (lambda d: shutil.rmtree(d, ignore_errors=True))
         S1 = snapshot(root)
         rec.ev('c07:requests')
         if S1 != S0:
             rec.violate('c07:changed_before_apply', 'the project directory changed before apply(): %s'
                         % sorted(set(S0) ^ set(S1) or [f for f in S0 if S0[f] != S1.get(f)])[:4], **w)
         if ref is None:
-            shutil.rmtree(root, ignore_errors=True)
+            cleanup(root)
             continue
         checked += 1
         rec.ev('c07:results_checked')
@@ -329,11 +343,34 @@ def run(spec):
         except Exception as e:
             rec.violate('c07:' + apimon.exc_key(e, 'result'), 'inspecting the result raised %s: %s'
                         % (type(e).__name__, str(e)[:200]), trace=apimon._short_tb(e), **w)
-            shutil.rmtree(root, ignore_errors=True)
+            cleanup(root)
             continue
         S2 = snapshot(root)
         if S2 != S0:
             rec.violate('c07:changed_before_apply', 'inspecting the result changed the directory', **w)
+        if use_shared:
+            # the same request on a new Script over a new copy of the project must announce the same
+            froot = os.path.join(base, 'fresh%d' % k)
+            c05.write_tree(froot, files)
+            try:
+                fs = jedi.Script(files[rel], path=os.path.join(froot, rel), project=jedi.Project(froot))
+                fref = getattr(fs, refac)(line, col, **kwargs)
+                fcode = {os.path.relpath(str(p), froot): cf.get_new_code()
+                         for p, cf in fref.get_changed_files().items()}
+                fren = sorted((os.path.relpath(str(a), froot), os.path.relpath(str(b), froot))
+                              for a, b in fref.get_renames())
+                rec.ev('c07:shared_script_results_compared')
+                if fcode != new_code or fren != sorted(renames):
+                    bad = sorted(set(fcode) ^ set(new_code)) or [r for r in fcode if fcode[r] != new_code[r]]
+                    rec.violate('c07:result_depends_on_earlier_requests_of_the_script', '%s at %s on a Script '
+                                'that answered other refactoring requests before announces other contents '
+                                'than on a new Script (files %s)' % (refac, (line, col), bad[:3]),
+                                shared=new_code.get(bad[0], '')[:1500] if bad else '',
+                                fresh=fcode.get(bad[0], '')[:1500] if bad else '', **w)
+            except Exception as e:
+                rec.ev('c07:fresh_script_comparison_failed:' + type(e).__name__)
+            fs = fref = None
+            shutil.rmtree(froot, ignore_errors=True)
         # ---- diff vs get_new_code, via the strict applier
         nofinal_last_line = any(files[r] and not files[r].endswith(('\n', '\r')) and
                                 parso.split_lines(files[r])[-1] != parso.split_lines(new_code[r])[-1]
@@ -422,7 +459,7 @@ def run(spec):
             except Exception as e:
                 rec.violate('c07:' + apimon.exc_key(e, 'apply'), 'apply() raised %s: %s'
                             % (type(e).__name__, str(e)[:200]), trace=apimon._short_tb(e), **w)
-                shutil.rmtree(root, ignore_errors=True)
+                cleanup(root)
                 continue
             rec.ev('c07:applied')
             S3 = snapshot(root)
@@ -437,7 +474,7 @@ def run(spec):
                 diffs = sorted(set(got) ^ set(expect)) or [r for r in got if got[r] != expect.get(r)]
                 rec.violate('c07:apply_result', 'after apply() the directory differs from the announced '
                             'contents/names: %s' % diffs[:4], **w)
-        shutil.rmtree(root, ignore_errors=True)
+        cleanup(root)
     shutil.rmtree(base, ignore_errors=True)
     res['violations'] = [v for v in rec.violations if v['key'].startswith(('c07', 'exc:'))]
     res['events'] = {k: v for k, v in rec.events.items() if not k.startswith('call:')}
